@@ -58,7 +58,7 @@ def parse(path):
             elif k == "T":
                 cur.timers.append((tk[1], int(tk[2]), int(tk[3]), int(tk[4]), tk[5]))
             elif k == "R":
-                cur.requests.append((tk[1], int(tk[2]), int(tk[3]), tk[4]))
+                cur.requests.append((tk[1], int(tk[2]), int(tk[3]), tk[4], int(tk[5]) if len(tk) > 5 else None))
             elif k == "STOP":
                 cur.stop = (int(tk[1]), int(tk[2]))
             elif k == "RUN":
